@@ -91,6 +91,12 @@ def describe(coll, det=None, ses=None, compute=True, fuse=True, want=("name", "m
             with ses.scheduler(reference_world(), monitor=False, admission_check=False):
                 return len(coll)
         out["len"] = _guard(_len)
+    if "parts" in want and compute:
+        o = ses.compute_parts(coll, reference_world(), fuse=fuse, det=det)
+        if o.cls == "ok":
+            out["parts"] = o.obs
+        else:
+            out["parts"] = {"error": o.cls, "sig": exc_signature(o.exc) if o.exc is not None else o.cls, "msg": o.detail[:200]}
     if "result" in want and compute:
         o = ses.compute(coll, reference_world(), fuse=fuse, monitor=False, det=det, admission_check=False)
         if o.cls == "ok":
@@ -240,7 +246,7 @@ def diff_desc(a, b, fields=("name", "meta", "divisions", "npartitions", "result"
         if f not in a and f not in b:
             continue
         x, y = a.get(f), b.get(f)
-        if f == "result" and isinstance(x, dict) and isinstance(y, dict) and "rows" in x and "rows" in y:
+        if f in ("result", "parts") and isinstance(x, dict) and isinstance(y, dict) and "rows" in x and "rows" in y:
             eq, why = obs_equal(x, y)
             if not eq:
                 return f, why
